@@ -148,6 +148,7 @@ def parseNotif (t : List String) : Option Notif :=
 /-- the implementation's observable output, typed -/
 def parseObs (op : Op) (res : String) : Option Monitors.Obs :=
   if res.startsWith "PANIC" then some .panic else
+  if res.startsWith "HANG" then some .hang else
   match op with
   | .connect _ => if res = "ok" then some (.out .ok) else none
   | .event _ _ => if res = "ok" then some (.out .ok) else none
@@ -169,6 +170,37 @@ def parseChoice (s : String) : Option Choice :=
   else if s.startsWith "retained " then (parseStrList (s.drop 9).toString).map .retained
   else if s.startsWith "random " then ((s.drop 7).toString.trimAscii.toString.toNat?).map .random
   else none
+
+/-- the machine-readable tail `Router.choiceHint` puts on a `badChoice` message -/
+def parseHint (msg : String) : Option (Nat × Bool × Choice) :=
+  match msg.splitOn " ##hint " with
+  | [_, h] =>
+    match h.splitOn " " with
+    | unread :: same :: rest =>
+      let toks := (" ".intercalate rest).splitOn "\t"
+      match unread.toNat?, toks with
+      | some u, "matches" :: xs => (xs.mapM (fun (x : String) => x.toNat?)).map (fun v => (u, same == "1", Choice.matches v))
+      | some u, "retained" :: xs => some (u, same == "1", Choice.retained xs)
+      | some u, ["random", n] => (String.toNat? n).map (fun n => (u, same == "1", Choice.random n))
+      | _, _ => none
+    | _ => none
+  | _ => none
+
+/-- the recorded choice is inadmissible or missing (the implementation's hash map held something
+    else than the model's, or it never drew): after that disagreement is reported the model goes
+    on with its own admissible choice, so that the monitors can still find a concrete violation in
+    what the implementation sends afterwards. At most `fuel` choices are replaced per op. -/
+def stepRepair (s : RState) (choices : List Choice) (o : Op) : Nat → M (RState × Out)
+  | 0 => step { s with oracle := choices, ghost := [] } o
+  | fuel + 1 =>
+    match step { s with oracle := choices, ghost := [] } o with
+    | .error (.badChoice msg) =>
+      match parseHint msg with
+      | some (unread, same, fix) =>
+        let pos := choices.length - unread
+        stepRepair s (choices.take pos ++ [fix] ++ (if same then choices.drop (pos + 1) else choices.drop pos)) o fuel
+      | none => .error (.badChoice msg)
+    | r => r
 
 inductive MState
   | none
@@ -214,11 +246,24 @@ def handler (prop : String) (wrong : Bool) : Handler DState where
         let groups := s.shared.map (fun (n, g) => s!"{n}:clients={g.clients},idx={g.idx},cursor={g.cursor}")
         let trk := (s.conns.entries.zipIdx).filterMap (fun (c, i) => c.map (fun c =>
           s!"{i}:{repr c.tracker.status}:{c.tracker.requests.map (fun r => (r.filter, r.cursor))}:inflight={c.out.inflight.length}"))
-        (st, .bad s!"SNAP ready={s.readyqueue} groups={groups} trackers={trk}")
+        let mons := (st.mon.links.zipIdx).map (fun (lm, i) =>
+          s!"L{i}:{lm.clientId}:subs={lm.subs.map (fun (s : Monitors.Sub) => (s.path, s.qos, s.start, s.closedAt))}:configs={lm.configs.take 4}:pending={lm.pendingAcks.map (fun (p : Monitors.Pending) => (p.pkid, p.subIx, p.abs))}:win={lm.window}:amb={lm.ambiguous}")
+        (st, .bad s!"SNAP ready={s.readyqueue} groups={groups} trackers={trk} heads={st.mon.heads} mon={mons} sessions={st.mon.sessions.map (fun x => (x.clientId, x.fuzzy, x.subs.map (fun (s : Monitors.Sub) => (s.path, s.start))))} mongroups={st.mon.groups.map (fun (g : Monitors.GroupMon) => (g.name, g.idx, g.delivered.length, g.earlier.length, g.rewinds, g.fuzzy))}")
       | _ => (st, .ok)
     | ["idle"] =>
       match st.m with
-      | .live _ =>
+      | .live s =>
+        -- `idle` is the generator's claim that nothing is left to do; a replay that was cut or
+        -- shrunk may carry the claim into a state where it is false, so it is re-established on
+        -- the model: no runnable connection, nothing unread in either direction of a live link
+        let quiescent := s.readyqueue.all (fun id => (getConn s id).isNone) &&
+          s.conns.entries.all (fun c => match c with
+            | none => true
+            | some c => (getLink s c.link).ibuf.isEmpty && (getLink s c.link).obuf.isEmpty)
+        -- ... and every live link has acknowledged every QoS>0 forward it was handed (what the
+        -- link saw and pushed, not what the router believes)
+        let acked := st.mon.links.all (fun lm => !lm.live || lm.window.isEmpty)
+        if !(quiescent && acked) then (st, .ok) else
         match Monitors.atIdle st.prop st.mon with
         | some (tag, d) => (st, .monitorFail tag (if st.diverged then d ++ " [found after the model/implementation divergence reported earlier in this case]" else d))
         | none => (st, .ok)
@@ -254,7 +299,9 @@ def handler (prop : String) (wrong : Bool) : Handler DState where
             | none => (st, .bad "unparsable output")
             | some obs =>
             let implPanic := res.startsWith "PANIC"
-            let stepped := step { s with oracle := choices, ghost := [] } o
+            let stepped0 := step { s with oracle := choices, ghost := [] } o
+            let choiceErr : Option String := match stepped0 with | .error (.badChoice msg) => some msg | _ => none
+            let stepped := if choiceErr.isSome then stepRepair s choices o 16 else stepped0
             let ghosts := match stepped with | .ok (s', _) => s'.ghost | .error _ => []
             let (mon, mv) := Monitors.observe st.prop st.mon o obs ghosts behalf
             let st := { st with mon := mon }
@@ -263,7 +310,7 @@ def handler (prop : String) (wrong : Bool) : Handler DState where
               if implPanic then
                 ({ st with m := .dead }, match mv with | some (t, d) => .monitorFail t d | none => .ok)
               else ({ st with m := .dead }, if st.diverged then .ok else .diverge s!"PANIC {msg}" res)
-            | .error (.badChoice msg) => ({ st with m := .dead }, if st.diverged then .ok else .diverge s!"bad-choice {msg}" out)
+            | .error (.badChoice msg) => ({ st with m := .dead }, if st.diverged then .ok else .diverge s!"bad-choice {(msg.splitOn " ##hint ").headD msg}" out)
             | .ok (s', mo) =>
               let mo := if st.wrong then
                   (match mo with | .drained t ns => Out.drained t ns.reverse | x => x) else mo
@@ -274,8 +321,13 @@ def handler (prop : String) (wrong : Bool) : Handler DState where
               if implPanic then
                 ({ st with m := .dead },
                  match mv with | some _ => mark mv | none => if st.diverged then .ok else .diverge ms res)
+              else if let some msg := choiceErr then
+                ({ st with m := .live { s' with oracle := [] }, diverged := true },
+                 match mv with | some _ => mark mv | none => if st.diverged then .ok else .diverge s!"bad-choice {(msg.splitOn " ##hint ").headD msg}" out)
               else if !s'.oracle.isEmpty then
-                ({ st with m := .dead }, if st.diverged then .ok else .diverge "unused-choices" out)
+                -- the implementation consulted a hash map / drew a number the model did not
+                ({ st with m := .live { s' with oracle := [] }, diverged := true },
+                 match mv with | some _ => mark mv | none => if st.diverged then .ok else .diverge "unused-choices" out)
               else if ms ≠ res then
                 -- keep going on the model's own state; later disagreements are not reported again
                 ({ st with m := .live s', diverged := true },
